@@ -135,6 +135,26 @@ Theorem c16_thumbprint_template :
        lenN xb = size /\ lenN yb = size /\ be_val xb = x /\ be_val yb = y).
 Proof. split; [exact rsa_thumb_template|exact ec_thumb_template]. Qed.
 
+(* ---------------------------------------------------------------- Concat KDF / ECDH-ES (cipher/concat_kdf.go, ecdh_es.go) *)
+(* the KDF's OtherInfo (length-prefixed AlgorithmID, PartyUInfo, PartyVInfo, 32-bit output
+   length in bits) determines its four components; successive rounds hash different inputs
+   (32-bit big-endian counter first, starting at 1); a key not longer than one hash output is
+   the first [size] bytes of H(00000001 || Z || OtherInfo) *)
+Theorem c16_kdf_layout :
+  (forall alg apu apv size alg' apu' apv' size',
+     lenN alg < 4294967296 -> lenN apu < 4294967296 -> lenN apv < 4294967296 ->
+     lenN alg' < 4294967296 -> lenN apu' < 4294967296 -> lenN apv' < 4294967296 ->
+     size < 536870912 -> size' < 536870912 ->
+     kdf_info alg apu apv size = kdf_info alg' apu' apv' size' ->
+     alg = alg' /\ apu = apu' /\ apv = apv' /\ size = size') /\
+  (forall i j z info, i < 4294967296 -> j < 4294967296 ->
+     kdf_round_input i z info = kdf_round_input j z info -> i = j) /\
+  (forall H z info size fuel, 0 < size -> size <= lenN (H (kdf_round_input 1 z info)) ->
+     kdf_read H (S fuel) 1 z info size = firstn (N.to_nat size) (H (kdf_round_input 1 z info))).
+Proof.
+  split; [exact kdf_info_injective|]. split; [exact kdf_round_input_injective|exact kdf_read_one_round].
+Qed.
+
 (* ---------------------------------------------------------------- end to end, primitives idealised *)
 (* IDEALISATION (hypothesis ideal): under the right key exactly the produced (signing input,
    signature) pair verifies.  Then sign -> CompactSerialize -> ParseSigned -> Verify returns the
@@ -298,6 +318,7 @@ Print Assumptions c16_keywrap.
 Print Assumptions c16_keywrap_icv.
 Print Assumptions c16_fixed_width.
 Print Assumptions c16_thumbprint_template.
+Print Assumptions c16_kdf_layout.
 Print Assumptions c16_roundtrip_sym_jws.
 Print Assumptions c16_tamper_sym_jws.
 Print Assumptions c16_other_key_jws.
